@@ -2,7 +2,7 @@
    tree it builds, and the input on which the proviso `ws_trivial` fails and with it the closed
    form: a whitespace-skipping @leftrec rule entered where whitespace follows returns its seed only
    (known finding c07:entered-before-whitespace). *)
-From PegV Require Import Utf8 State Terminals Syntax Fields FieldsFacts Literals Model Conform UsualShape.
+From PegV Require Import Utf8 State Terminals Syntax Fields FieldsFacts Literals Model Conform CleanFrame UsualShape NoSentinel.
 
 (* @export @leftrec E = l:*E '+' n:N | n:N;   @string @no_skip_ws N = {'0'..'9'}+; *)
 Definition nE : name := [69]%N.
@@ -110,6 +110,120 @@ Proof.
     + injection Fr as <-. reflexivity.
     + discriminate Fr.
   - reflexivity.
+  - reflexivity.
+  - intros [] []. reflexivity.
+Qed.
+
+(* ---- the reported error of the exported @leftrec rule is never the sentinel (NoSentinel.usual_no_sentinel) -- *)
+Example sum_no_sentinel :
+  forall input F e gl',
+    ws_trivial g_sum rE rf_sum (init_state input) ->
+    m_parse unit scfg_doc term_cfg_expected fields_cfg_doc rcfg_doc no_hooks g_sum F nE input tt = (MErr e, gl') ->
+    e_spec e <> LeftRecursionSentinel.
+Proof.
+  intros input F e gl' W E. unfold m_parse in E.
+  refine (usual_no_sentinel unit scfg_doc eq_refl term_cfg_expected fields_cfg_doc rcfg_doc eq_refl no_hooks g_sum rE nl true
+            x_plus [x_num] b_num [] eq_refl eq_refl eq_refl rf_sum fds_sum fds1_sum inner1_sum _ _ _ _ clean_sum _ _ _ _
+            (init_state input) F (init_glob unit tt) e gl' W _ eq_refl E).
+  - vm_compute. reflexivity.
+  - vm_compute. reflexivity.
+  - vm_compute. reflexivity.
+  - vm_compute. reflexivity.
+  - intros n H. destruct (clean_sum_cases n H) as [->| ->]; vm_compute; auto.
+  - intros n r0 H Fr. destruct (clean_sum_cases n H) as [->| ->]; vm_compute in Fr.
+    + injection Fr as <-. reflexivity.
+    + discriminate Fr.
+  - reflexivity.
+  - reflexivity.
+  - intros f X. discriminate X.
+Qed.
+
+Example sum_fails_with_a_real_error :
+  fst (run_sum [120]%N) = MErr {| e_pos := 0; e_spec := ExpectedCharacterRange 48 57 |}.
+Proof. vm_compute. reflexivity. Qed.
+
+(* ---- several recursive alternatives (UsualShapeN):  @leftrec S = l:*S '+' n:N | l:*S '-' n:N | n:N ---- *)
+From PegV Require Import UsualShapeN.
+Definition nS : name := [83]%N.
+Definition x_minus : expr := ELit false [SIChar 45%N].
+Definition ra_plus : ralt := {| ra_l := nl; ra_bx := true; ra_x1 := x_plus; ra_xs := [x_num] |}.
+Definition ra_minus : ralt := {| ra_l := nl; ra_bx := true; ra_x1 := x_minus; ra_xs := [x_num] |}.
+Definition rS : rule := {| r_directives := [DExport; DLeftrec]; r_name := nS;
+   r_def := EChoice [ESeq [EField (FNamed nl) true nS; x_plus; x_num];
+                     ESeq [EField (FNamed nl) true nS; x_minus; x_num]; b_num] |}.
+Definition g_pm : grammar :=
+  [GRule rS;
+   GRule {| r_directives := [DString; DNoSkipWs]; r_name := nN;
+            r_def := EChoice [ESeq [EClosure (EChoice [ESeq [ERange (SIChar 48%N) (SIChar 57%N)]]) true]] |}].
+Definition rf_pm : list fdesc :=
+  Eval vm_compute in match get_fields fields_cfg_doc (gf_fuel g_pm) g_pm (r_def rS) with GFOk l => l | _ => [] end.
+Definition fds_pm : list fdesc :=
+  Eval vm_compute in match filt fields_cfg_doc g_pm (actx rS rf_pm) (r_def rS) with Some l => l | None => [] end.
+Definition fds1_pm (r : ralt) : list fdesc :=
+  match filt fields_cfg_doc g_pm (actx rS rf_pm) (ralt_e rS r) with Some l => l | None => [] end.
+Definition inner_pm (r : ralt) : list fdesc :=
+  match own_fields fields_cfg_doc g_pm (ralt_e rS r) with Some l => l | None => [] end.
+
+Example pm_is_usualN :
+  forall k st gl c,
+    ws_trivial g_pm rS rf_pm st -> cache_get nS (off st) (g_cache gl) = Some c ->
+    rule_body unit scfg_doc fields_cfg_doc no_hooks g_pm
+      (run unit scfg_doc term_cfg_expected fields_cfg_doc rcfg_doc no_hooks g_pm (S (S (S (S k))))) rS st gl =
+    finish unit scfg_doc no_hooks rS rf_pm st
+      (rec_loop unit scfg_doc term_cfg_expected fields_cfg_doc rcfg_doc no_hooks g_pm rS [b_num] rf_pm fds_pm fds1_pm inner_pm
+         k c [ra_plus; ra_minus] st gl).
+Proof.
+  intros k st gl c W C.
+  refine (usualN_body_eq unit scfg_doc term_cfg_expected fields_cfg_doc rcfg_doc no_hooks g_pm rS eq_refl eq_refl
+            [ra_plus; ra_minus] [b_num] _ _ _ eq_refl eq_refl rf_pm fds_pm _ _ fds1_pm inner_pm _ clean_sum _ _ _ _ k st gl c W C).
+  - vm_compute. reflexivity.
+  - vm_compute. reflexivity.
+  - intros r [<-|[<-|[]]]; split; vm_compute; reflexivity.
+  - intros n H. destruct (clean_sum_cases n H) as [->| ->]; vm_compute; auto.
+  - intros n r0 H Fr. destruct (clean_sum_cases n H) as [->| ->]; vm_compute in Fr.
+    + injection Fr as <-. reflexivity.
+    + discriminate Fr.
+  - reflexivity.
+  - intros r [<-|[<-|[]]]; reflexivity.
+Qed.
+
+(* 1-2+3 is ((1-2)+3): the second recursive alternative extends, then the first *)
+Definition nodeS (left : value) (d : N) : value := VStruct nS [(nl, VSome left); (nn, VStr [d])] None.
+Definition leafS (d : N) : value := VStruct nS [(nl, VNone); (nn, VStr [d])] None.
+Example pm_left_nested :
+  exists st, fst (m_parse unit scfg_doc term_cfg_expected fields_cfg_doc rcfg_doc no_hooks g_pm 80 nS [49; 45; 50; 43; 51]%N tt)
+             = MOk (nodeS (nodeS (leafS 49) 50) 51) st /\ off st = 5.
+Proof. eexists. split; [vm_compute; reflexivity|reflexivity]. Qed.
+
+(* ... and the hypotheses of the closed form for several recursive alternatives (UsualShapeN.closed_formN) *)
+Example pm_closed_form :
+  forall st, ws_trivial g_pm rS rf_pm st ->
+  forall F gl r gl',
+    cache_get nS (off st) (g_cache gl) = None ->
+    ev_rule (run unit scfg_doc term_cfg_expected fields_cfg_doc rcfg_doc no_hooks g_pm F) nS st gl = (r, gl') ->
+    match r with
+    | MOk v s =>
+      exists v0 s0,
+        BokN unit scfg_doc term_cfg_expected fields_cfg_doc rcfg_doc no_hooks g_pm rS [b_num] rf_pm fds_pm st v0 s0 /\
+        StarN unit scfg_doc term_cfg_expected fields_cfg_doc rcfg_doc no_hooks g_pm rS [ra_plus; ra_minus] rf_pm fds_pm fds1_pm inner_pm st v0 s0 v s /\
+        StopN unit scfg_doc term_cfg_expected fields_cfg_doc rcfg_doc no_hooks g_pm rS [ra_plus; ra_minus] rf_pm fds_pm fds1_pm inner_pm st v s
+    | MErr _ => BfailN unit scfg_doc term_cfg_expected fields_cfg_doc rcfg_doc no_hooks g_pm rS [b_num] rf_pm fds_pm st
+    | _ => True
+    end.
+Proof.
+  intros st W F gl r gl' C E.
+  refine (closed_formN unit scfg_doc term_cfg_expected fields_cfg_doc rcfg_doc no_hooks g_pm rS eq_refl eq_refl
+            [ra_plus; ra_minus] [b_num] _ _ _ eq_refl eq_refl rf_pm fds_pm _ _ fds1_pm inner_pm _ clean_sum _ _ _ _
+            ra_plus [ra_minus] eq_refl _ _ eq_refl eq_refl st W F gl r gl' C E).
+  - vm_compute. reflexivity.
+  - vm_compute. reflexivity.
+  - intros r0 [<-|[<-|[]]]; split; vm_compute; reflexivity.
+  - intros n H. destruct (clean_sum_cases n H) as [->| ->]; vm_compute; auto.
+  - intros n r0 H Fr. destruct (clean_sum_cases n H) as [->| ->]; vm_compute in Fr.
+    + injection Fr as <-. reflexivity.
+    + discriminate Fr.
+  - reflexivity.
+  - intros r0 [<-|[<-|[]]]; reflexivity.
   - reflexivity.
   - intros [] []. reflexivity.
 Qed.
